@@ -14,7 +14,8 @@ The executable semantics is the fuel-indexed interpreter `execS` (fuel bounds th
 runs out); `Cppcheck.MiniC.BigStep` (Proofs/MiniC.lean) is the inductive big-step relation it is proved to agree with.
 -/
 namespace Cppcheck.MiniC
-open Cppcheck.Platforms Cppcheck.Trunc
+open Cppcheck.Platforms
+open Cppcheck.Trunc (wrapC)
 
 inductive Rank | char | short | int | long | llong
   deriving DecidableEq, Repr, Inhabited
